@@ -993,3 +993,40 @@ mod test {
         // reader.clone();
     }
 }
+
+#[cfg(multiqueue2_verif)]
+mod verif_layout {
+    use super::*;
+    use crate::verif_hooks::Loc;
+
+    impl<T> MPMCSender<T> {
+        pub fn verif_layout(&self) -> Vec<Loc> {
+            self.sender.verif_layout()
+        }
+    }
+    impl<T> MPMCReceiver<T> {
+        pub fn verif_layout(&self) -> Vec<Loc> {
+            self.receiver.verif_layout()
+        }
+    }
+    impl<T> MPMCUniReceiver<T> {
+        pub fn verif_layout(&self) -> Vec<Loc> {
+            self.receiver.verif_layout()
+        }
+    }
+    impl<T> MPMCFutSender<T> {
+        pub fn verif_layout(&self) -> Vec<Loc> {
+            self.sender.verif_layout()
+        }
+    }
+    impl<T> MPMCFutReceiver<T> {
+        pub fn verif_layout(&self) -> Vec<Loc> {
+            self.receiver.verif_layout()
+        }
+    }
+    impl<R, F: FnMut(&T) -> R, T> MPMCFutUniReceiver<R, F, T> {
+        pub fn verif_layout(&self) -> Vec<Loc> {
+            self.receiver.verif_layout()
+        }
+    }
+}
